@@ -904,6 +904,13 @@ class Exec:
             args = split_top(m.group(2))
             if op == 'discriminant':
                 v = self.load(args[0], frame)
+                if v is None:
+                    # a never-assigned local of a single-variant enum (rustc replaces the value by a constant)
+                    mloc = re.match(r'^_(\d+)$', args[0].strip())
+                    ty = strip_generics(frame['fn'].types.get(int(mloc.group(1)), '')) if mloc else ''
+                    ce = self.prog.enums.get(ty)
+                    if ce is not None and len(ce) == 1:
+                        return list(ce.values())[0]
                 return self.discr(v)
             if op in ('PtrMetadata', 'Len'):
                 v = self.operand(args[0], frame) if op == 'PtrMetadata' else self.load(args[0], frame)
